@@ -150,10 +150,23 @@ class Edit(types.SimpleNamespace):
         return "Edit(" + ", ".join(out) + ")"
 
 
-class Probes(list):
+class Probes:
     """the cursors forwarded on one path: [(kind, cursor)]"""
+    def __init__(self):
+        self.items = []
+
+    def append(self, x):
+        self.items.append(x)
+
+    def __iadd__(self, xs):
+        self.items.extend(xs)
+        return self
+
+    def __iter__(self):
+        return iter(self.items)
+
     def __str__(self):
-        return "[" + ", ".join(f"{k}: {show_cursor(c)}" for k, c in self) + "]"
+        return "[" + ", ".join(f"{k}: {show_cursor(c)}" for k, c in self.items) + "]"
 
 
 # the first seven shapes vary the length of the edited block (and the position
@@ -267,7 +280,7 @@ def node_sound(a, cur, out, exc, rec):
     t = a.t
     ok0, old_c = resolve_g(t.root, cur._path)
     if exc is not None:
-        return isinstance(exc, InvalidCursorError)
+        return True                     # see the clause on exceptions / on precision
     if not isinstance(out, IC.Node):
         return False
     ok, new_c = resolve_g(rec.new_root, out._path)
@@ -312,18 +325,36 @@ def placed_by_edit(a, w):
     return False
 
 
-def block_sound(a, cur, out, exc, rec, strict=True):
-    t = a.t
+def block_resolves(a, cur, out, exc, rec):
+    """the forwarded block exists in the new tree: anchor path, attribute, range"""
     if exc is not None:
-        return isinstance(exc, InvalidCursorError)
+        return True
     if not isinstance(out, IC.Block):
         return False
+    ok, cands = resolve_g(rec.new_root, out._anchor._path)
+    a2, b2 = out._range.start, out._range.stop
+    conds = [ok, out._root is rec.new_root, out._anchor._root is rec.new_root]
+    for gn, pn in cands:
+        NL = getattr(pn, out._attr, None)
+        if not isinstance(NL, list):
+            conds.append(Not(gn))                       # dangling attribute
+            continue
+        conds.append(Implies(gn, And(0 <= a2, a2 <= b2, b2 <= len(NL))))
+    return And(conds)
+
+
+def block_sound(a, cur, out, exc, rec, strict=True):
+    """(given that it resolves) the forwarded block denotes the surviving
+    statements of the old block and no foreign statement"""
+    t = a.t
+    if exc is not None or not isinstance(out, IC.Block):
+        return True
     OL = getattr(get_path(t.root, cur._anchor._path), cur._attr)
     oa, ob = cur._range.start, cur._range.stop
     otags = old_tags(t)
     ok, cands = resolve_g(rec.new_root, out._anchor._path)
     a2, b2 = out._range.start, out._range.stop
-    conds = [ok, out._root is rec.new_root, out._anchor._root is rec.new_root]
+    conds = []
 
     def idx_in_OL(w):
         for k, s in enumerate(OL):
@@ -334,9 +365,7 @@ def block_sound(a, cur, out, exc, rec, strict=True):
     for gn, pn in cands:
         NL = getattr(pn, out._attr, None)
         if not isinstance(NL, list):
-            conds.append(Not(gn))                       # dangling attribute
             continue
-        conds.append(Implies(gn, And(0 <= a2, a2 <= b2, b2 <= len(NL))))
         for m, x in enumerate(NL):                      # nothing foreign
             inn = And(gn, a2 <= m, m < b2)
             for w in old_content(x, otags):
@@ -393,7 +422,7 @@ def block_precise(a, cur, out, exc, rec):
 
 def gap_sound(a, cur, out, exc, rec):
     if exc is not None:
-        return isinstance(exc, InvalidCursorError)
+        return True
     if not isinstance(out, IC.Gap):
         return False
     return And(out._type is cur._type, out._root is rec.new_root,
@@ -496,11 +525,14 @@ def edit_contract(qualname, g_edit, do_edit, expected_model, min_n=0, shapes=Non
                         if kind.startswith(prefix)])
         return clause
 
+    c.ensures("forwarding yields a cursor or raises InvalidCursorError, never another exception")(
+        on("", lambda a, cur, out, exc, r: exc is None or isinstance(exc, InvalidCursorError)))
     c.ensures("node cursor: forwarded to the very same statement, or invalid if it is gone; "
               "never dangling, never another statement")(on("node_", node_sound))
     c.ensures("node cursor: InvalidCursorError only for a deleted statement")(on("node_", node_precise))
-    c.ensures("block cursor: forwarded block denotes the same surviving statements, in range, "
-              "nothing foreign; or invalid")(
+    c.ensures("block cursor: the forwarded block exists in the new tree (anchor, attribute, range): never dangling")(
+        on("block_", block_resolves))
+    c.ensures("block cursor: the forwarded block denotes the same surviving statements, nothing foreign")(
         on("block_", lambda a, cur, out, exc, r: block_sound(a, cur, out, exc, r, strict=block_strict)))
     if block_precision:
         c.ensures("block cursor: not reported invalid when its statements survive as a block")(
